@@ -43,7 +43,12 @@ pub fn pool(ty: Ty) -> Vec<V> {
             Value::Int(7),
             Value::Int(i64::MAX),
         ],
-        Ty::Float => vec![Value::Float(1.5), Value::Float(-0.25), Value::Float(2.0)],
+        Ty::Float => vec![
+            Value::Float(1.5),
+            Value::Float(-0.25),
+            Value::Float(2.0),
+            Value::Float(0.0),
+        ],
         Ty::Bool => vec![Value::Boolean(true), Value::Boolean(false)],
         Ty::Str => vec![
             Value::String(String::new()),
@@ -405,6 +410,48 @@ impl<'a> Gen<'a> {
             let arg = self.sub(ty, b, d);
             return self.call_behaviour("f", Some(*arg), ty);
         }
+        if common >= 26 && common < 29 && matches!(ty, Ty::Int | Ty::Float | Ty::Str | Ty::Bool) {
+            // a flat, left-leaning chain `t1 op t2 op ... op tn` of directly nested binary nodes
+            let n = self.rng.range(3, 12);
+            let ops: &[Bin] = match ty {
+                Ty::Int => &[Bin::Add, Bin::Sub, Bin::Mul],
+                Ty::Float => &[Bin::Add, Bin::Sub, Bin::Mul, Bin::Div],
+                Ty::Str => &[Bin::Add],
+                _ => &[Bin::And, Bin::Or],
+            };
+            let mut acc = self.expr(ty, 2, 1);
+            for _ in 1..n {
+                let op = *self.rng.pick(ops);
+                let term_budget = if self.rng.percent(70) { 2 } else { 3 };
+                let t = self.sub(ty, term_budget, 1);
+                acc = Expr::Bin(op, Box::new(acc), t);
+            }
+            return acc;
+        }
+        if common == 29 && ty == Ty::Float {
+            // NaN / infinity arise only from operators
+            let z = Box::new(Expr::Lit(Value::Float(0.0)));
+            let num = if self.rng.percent(50) { z.clone() } else { Box::new(self.lit(Ty::Float)) };
+            return Expr::Bin(Bin::Div, num, z);
+        }
+        if common >= 23 && common < 26 {
+            // the same effectful expression twice as sibling operands (`e op e`, `(e, e)`): each
+            // occurrence must be evaluated
+            let e = match ty {
+                Ty::Int | Ty::Float | Ty::Str => Some((Bin::Add, ty)),
+                Ty::Bool => Some((if self.rng.percent(50) { Bin::And } else { Bin::Eq }, ty)),
+                _ => None,
+            };
+            if let Some((op, t)) = e {
+                let operand_ty = if op == Bin::Eq { self.any_ty() } else { t };
+                let x = self.expr(operand_ty, (b / 2).max(1), d);
+                return Expr::Bin(op, Box::new(x.clone()), Box::new(x));
+            } else if ty == Ty::Tuple {
+                let t = self.any_ty();
+                let x = self.expr(t, (b / 2).max(1), d);
+                return Expr::Tuple(vec![x.clone(), x]);
+            }
+        }
         if common < 23 && common >= 20 && self.cfg.builtins {
             match ty {
                 Ty::Str => {
@@ -600,7 +647,11 @@ pub fn gen_setup(rng: &mut Rng) -> Setup {
 /// Swarm-style configuration of the generator for one run.
 pub fn gen_cfg(rng: &mut Rng, setup: &Setup) -> GenCfg {
     let spiny = rng.percent(20);
-    let (budget, max_depth) = if spiny {
+    let (budget, max_depth) = if spiny && rng.percent(12) {
+        // very deep (depth limits, recursion budgets)
+        let d = rng.range(130, 300);
+        (d * 5 / 2, d)
+    } else if spiny {
         (rng.range(20, 70), rng.range(20, 60))
     } else {
         (*rng.pick(&[4usize, 8, 12, 20, 32]), rng.range(2, 8))
